@@ -280,7 +280,8 @@ namespace nmtools::index
             for (nm_size_t i=0; i<(nm_size_t)n_planes; i++) {
                 if constexpr (meta::is_index_array_v<dilation_t>) {
                     // assume same length as n_planes
-                    at(result,i) = at(dilation,i) - 1;
+                    // NOTE: result[i] is consumed for window axis -(i+1), i.e. in reversed axis order
+                    at(result,i) = at(dilation,(nm_size_t)n_planes-1-i) - 1;
                 } else {
                     at(result,i) = dilation - 1;
                 }
